@@ -142,8 +142,35 @@ pub fn run(ctx: &mut Ctx) {
         }
         ctx.exhaustive.insert("all pairs of lists of length<=3 over a 4-element pool".into(), !ctx.miri);
     }
+    let mon = super::routes::Monitor::new(super::routes::SETS);
+    // zeros and ones of every encoding, as text and as JSONB
+    if ctx.shard == 1 % ctx.nshards {
+        use crate::tree::Num;
+        let pool = vec![Tree::Num(Num::U(0)), Tree::Num(Num::f(0.0)), Tree::Num(Num::f(-0.0)), Tree::Num(Num::I(-1)), Tree::Num(Num::f(-1.0)), Tree::Str("\u{20000}".into()), Tree::Str("\u{10000}".into())];
+        let mut lists: Vec<Tree> = Vec::new();
+        for a in &pool {
+            lists.push(a.clone());
+            for b in &pool {
+                lists.push(Tree::Arr(vec![a.clone(), b.clone()]));
+            }
+        }
+        lists.push(Tree::Arr(pool.clone()));
+        let mut rng = ctx.rng.fork();
+        for a in &lists {
+            for b in &lists {
+                if !ctx.next_case() {
+                    return;
+                }
+                check_pair(ctx, a, b);
+                if !ctx.miri || ctx.case_no % 7 == 0 {
+                    let args = super::routes::plain_args(a, &mut rng);
+                    mon.check(ctx, a, b, &args, &mut rng);
+                }
+            }
+        }
+    }
     let n = ctx.budget(1_000_000, 20_000_000);
-    for _ in 0..n {
+    for i in 0..n {
         if !ctx.next_case() {
             return;
         }
@@ -152,6 +179,10 @@ pub fn run(ctx: &mut Ctx) {
         let a = pool_array(&mut rng, &pool);
         let b = if rng.chance(1, 8) { a.clone() } else { pool_array(&mut rng, &pool) };
         check_pair(ctx, &a, &b);
+        if i % 3 == 0 {
+            let args = super::routes::plain_args(&a, &mut rng);
+            mon.check(ctx, &a, &b, &args, &mut rng);
+        }
         if ctx.case_no % 2003 == 11 && !ctx.miri {
             let e = rng.pick(&pool).clone();
             let (na, nb) = (*rng.pick(&[255usize, 256, 257, 259, 300]), *rng.pick(&[254usize, 255, 256, 258, 300]));
